@@ -121,6 +121,30 @@ var entries = []*entry{
 		err := pretty.WriteSEN(w, v)
 		return w.buf, err
 	}},
+	// the remaining exported functions and methods, with default options
+	{name: "sen.MustWrite()", fixed: true, stream: true, call: func(v any, _ *optVec, w *sink) ([]byte, error) {
+		sen.MustWrite(w, v)
+		return w.buf, nil
+	}},
+	{name: "Writer.MustWrite()", fixed: true, stream: true, call: func(v any, _ *optVec, w *sink) ([]byte, error) {
+		wr := sen.Writer{Options: ojg.DefaultOptions}
+		wr.MustWrite(w, v)
+		return w.buf, nil
+	}},
+	{name: "pretty.Writer{SEN}.Encode()", fixed: true, pretty: true, call: func(v any, _ *optVec, _ *sink) ([]byte, error) {
+		pw := pretty.Writer{Options: ojg.DefaultOptions, Width: 80, MaxDepth: 3, SEN: true}
+		return append([]byte{}, pw.Encode(v)...), nil
+	}},
+	{name: "pretty.Writer{SEN}.Marshal()", fixed: true, pretty: true, call: func(v any, _ *optVec, _ *sink) ([]byte, error) {
+		pw := pretty.Writer{Options: ojg.DefaultOptions, Width: 80, MaxDepth: 3, SEN: true}
+		b, err := pw.Marshal(v)
+		return append([]byte{}, b...), err
+	}},
+	{name: "pretty.Writer{SEN}.Write()", fixed: true, pretty: true, stream: true, call: func(v any, _ *optVec, w *sink) ([]byte, error) {
+		pw := pretty.Writer{Options: ojg.DefaultOptions, Width: 80, MaxDepth: 3, SEN: true}
+		err := pw.Write(w, v)
+		return w.buf, err
+	}},
 }
 
 func entryByName(n string) *entry {
